@@ -121,36 +121,72 @@ def job(j):
         return dict(error='%s: %s\n%s' % (type(e).__name__, e, traceback.format_exc()))
 
 
+_WARM = []
+
+
 def run_jobs(jobs, procs=8):
     if not jobs:
         return []
+    if not _WARM:
+        # import the application once in the parent so that forked workers start warm
+        import wpull.application.builder  # noqa
+        import wpull.application.options  # noqa
+        import drivers.crawl_exec  # noqa
+        _WARM.append(1)
     ctx = multiprocessing.get_context('fork')
     with ProcessPoolExecutor(max_workers=procs, mp_context=ctx) as ex:
         return list(ex.map(job, jobs, chunksize=1))
 
 
 # ------------------------------------------------------------------ exploration of answer orders
-def explore_orders(scn, limit):
-    """All orders in which the server can answer concurrent requests (DFS over choice prefixes, in waves)."""
-    results = []
-    frontier = [[]]
-    seen = set()
-    while frontier and len(results) < limit:
-        wave = frontier[:max(1, limit - len(results))]
-        frontier = frontier[len(wave):]
-        outs = run_jobs([dict(mode='plain', scn=scn, order=p) for p in wave])
-        for p, o in zip(wave, outs):
+def explore_many(scns, limit):
+    """For each scenario: all orders in which the server can answer concurrent requests (stateless DFS over choice
+    prefixes on the real application, bounded by `limit` runs per scenario).  The frontiers of all scenarios are
+    executed together, wave by wave.  Returns {name: ([(prefix, outcome)], exhaustive)}."""
+    state = {s['name']: dict(scn=s, frontier=[[]], seen=set(), results=[]) for s in scns}
+    while True:
+        wave = []
+        for st in state.values():
+            room = limit - len(st['results'])
+            take = st['frontier'][:max(0, room)]
+            st['frontier'] = st['frontier'][len(take):]
+            wave += [(st, p) for p in take]
+        if not wave:
+            break
+        outs = run_jobs([dict(mode='plain', scn=st['scn'], order=p) for st, p in wave])
+        for (st, p), o in zip(wave, outs):
             if 'error' in o:
                 raise RuntimeError(o['error'])
-            results.append((p, o))
+            st['results'].append((p, o))
             ch = o['choices']
             for dpt in range(len(p), len(ch)):
                 for alt in range(1, ch[dpt][1]):
                     q = [c[0] for c in ch[:dpt]] + [alt]
-                    if tuple(q) not in seen:
-                        seen.add(tuple(q))
-                        frontier.append(q)
-    return results, not frontier
+                    if tuple(q) not in st['seen']:
+                        st['seen'].add(tuple(q))
+                        st['frontier'].append(q)
+    return {n: (st['results'], not st['frontier']) for n, st in state.items()}
+
+
+def explore_orders(scn, limit):
+    r = explore_many([scn], limit)[scn['name']]
+    return r
+
+
+def run_catalogue(chk, cat, limit):
+    """N = 1 scenarios run once; N >= 2 scenarios with every answer order (bounded)."""
+    traces = []
+    single = [s for s in cat if s['N'] == 1]
+    multi = [s for s in cat if s['N'] > 1]
+    for s, o in zip(single, run_jobs([dict(mode='plain', scn=s) for s in single])):
+        traces.append((s, 'catalogue', o))
+    res = explore_many(multi, limit)
+    for s in multi:
+        rs, complete = res[s['name']]
+        for p, o in rs:
+            traces.append((s, 'orders', o))
+        chk.extra.setdefault('order_exploration', {})[s['name']] = dict(runs=len(rs), exhaustive=complete)
+    return traces
 
 
 # ------------------------------------------------------------------ check
@@ -168,15 +204,7 @@ def run(chk):
         chk.note('Crawl.tla design check not available in this build')
     traces = []   # (scn, origin, result)
     if pid in ('C01',):
-        for scn in cs.c01_catalogue(quick):
-            if scn['N'] == 1:
-                for o in run_jobs([dict(mode='plain', scn=scn)]):
-                    traces.append((scn, 'catalogue', o))
-            else:
-                res, complete = explore_orders(scn, 40 if quick else 400)
-                for p, o in res:
-                    traces.append((scn, 'orders', o))
-                chk.extra.setdefault('order_exploration', {})[scn['name']] = dict(runs=len(res), exhaustive=complete)
+        traces += run_catalogue(chk, cs.c01_catalogue(quick), 40 if quick else 400)
     elif pid == 'C03':
         for scn in cs.c03_catalogue(quick):
             base = run_jobs([dict(mode='plain', scn=scn)])[0]
@@ -197,14 +225,7 @@ def run(chk):
         outs = run_jobs([dict(mode='plain', scn=s) for s in cat])
         traces += [(s, 'catalogue', o) for s, o in zip(cat, outs)]
     elif pid == 'C20':
-        for scn in cs.c20_catalogue(quick):
-            if scn['N'] == 1:
-                for o in run_jobs([dict(mode='plain', scn=scn)]):
-                    traces.append((scn, 'catalogue', o))
-            else:
-                res, complete = explore_orders(scn, 30 if quick else 300)
-                for p, o in res:
-                    traces.append((scn, 'orders', o))
+        traces += run_catalogue(chk, cs.c20_catalogue(quick), 30 if quick else 300)
     judge(chk, traces)
 
 
